@@ -539,7 +539,9 @@ def step (cfg : Cfg) (s : State) : Label → Option State
     else none
   -- ---------------------------------------------------------------- workers, daemons, helper
   | .workerStart o =>
-    if s.rt ≠ .exited ∧ watcherLike s o = true ∧ s.st o = .running
+    -- the coroutine was handed to the scheduler while the watcher ran; its first step may come when the
+    -- watcher is already in its `finally:` (`close()` cancels such late starters)
+    if s.rt ≠ .exited ∧ watcherLike s o = true ∧ (s.st o).active = true
         ∧ (match o with | .sub i => decide (i < s.nSubs) | .root _ => true) = true then
       some { s with wk := upd s.wk s.nWorkers (some (o, .running)), nWorkers := s.nWorkers + 1 }
     else none
